@@ -42,6 +42,7 @@ type trSpec struct {
 	identity   map[string]bool   // struct types handled through pointers that are compared / used as map keys: get an `addr__` field and DecidableEq
 	skipFields map[string]string // "<struct>.<field>" -> reason: left out of the emitted struct
 	eventLoops map[string]bool   // methods of the form `for { select { case x := <-recv.ch: … } }`: one Lean function per case
+	statsFields map[string]bool  // struct fields holding traffic statistics: statements that only update them are not data (skipped like logging)
 }
 
 type externCallSpec struct {
@@ -95,6 +96,14 @@ var trSpecs = []trSpec{
 		optionPtr:  map[string]string{"github.com/golang-jwt/jwt/v4.NumericDate": "Go.NumericDate"},
 		externMeth: map[string]string{"github.com/golang-jwt/jwt/v4.NumericDate.IsZero": "Go.NumericDate.IsZero", "github.com/golang-jwt/jwt/v4.NumericDate.Unix": "Go.NumericDate.unix"},
 		assertions: map[string][2]string{"*jwt.Token": {"%s.token", "%s.isJwt"}, "*permission.Token": {"%s.asToken", "%s.isToken"}}},
+	{dir: "internal/hub", module: "GenHub", ns: "Gen.hub",
+		wantedOnly:  map[string]bool{"Run": true, "RunWithStats": true},
+		eventLoops:  map[string]bool{"Run": true, "RunWithStats": true},
+		onlyTypes:   map[string]bool{"Client": true, "Message": true, "Hub": true},
+		identity:    map[string]bool{"Client": true},
+		statsFields: map[string]bool{"Stats": true},
+		skipFields: map[string]string{"Client.Hub": "back pointer to the hub (not data of the client)", "Client.Stats": "traffic counters",
+			"Hub.Stats": "traffic counters", "Message.Sent": "time stamp used by the statistics only"}},
 	{dir: "internal/crossbar", module: "GenCrossbar", ns: "Gen.crossbar", extraImps: []string{"Relay.Extracted.GenChanmap"},
 		wantedOnly: map[string]bool{"run": true, "remove": true},
 		eventLoops: map[string]bool{"run": true},
@@ -139,6 +148,101 @@ type tr struct {
 	outs      map[string]types.Type           // function -> Lean type of the values it sends with `select { case ch <- v: default: }` (log `out__`)
 	evClauses map[string]*ast.CommClause  // pseudo-function "<T>.<loop>.<channel field>" -> its select clause
 	present   map[string]int              // per function: inner maps known to exist (source text of `m[k]`)
+	statsLocals map[types.Object]bool     // per function: locals that exist only to compute statistics (`dt := time.Since(…)`)
+}
+
+// throughStats: the selector chain of e passes through a statistics field (`h.Stats.Dt`, `client.Stats.Rx.Last`)
+func (t *tr) throughStats(e ast.Expr) bool {
+	for {
+		switch x := e.(type) {
+		case *ast.SelectorExpr:
+			if t.spec.statsFields[x.Sel.Name] {
+				return true
+			}
+			e = x.X
+		case *ast.ParenExpr:
+			e = x.X
+		case *ast.StarExpr:
+			e = x.X
+		default:
+			return false
+		}
+	}
+}
+
+// isStatsStmt: a statement whose only effect is on traffic statistics (or on locals that feed only such statements):
+// `h.Stats.X.Add(…)`, `h.Stats.Last = time.Now()`, `dt := time.Since(…)`, `n := float64(len(…))`, and `if` statements over
+// such locals whose branches consist of such statements only. Skipped like logging; a statistics local used by any
+// translated expression makes the function untranslatable (checked in `expr`).
+func (t *tr) isStatsStmt(s ast.Stmt) bool {
+	if len(t.spec.statsFields) == 0 {
+		return false
+	}
+	switch x := s.(type) {
+	case *ast.ExprStmt:
+		if c, ok := x.X.(*ast.CallExpr); ok {
+			if se, ok := c.Fun.(*ast.SelectorExpr); ok && t.throughStats(se.X) {
+				return true
+			}
+		}
+	case *ast.AssignStmt:
+		all := len(x.Lhs) > 0
+		for _, l := range x.Lhs {
+			if !t.throughStats(l) {
+				all = false
+			}
+		}
+		if all {
+			return true
+		}
+		if x.Tok == token.DEFINE && len(x.Lhs) == 1 && len(x.Rhs) == 1 {
+			id, ok := x.Lhs[0].(*ast.Ident)
+			if !ok {
+				return false
+			}
+			src := srcString(x.Rhs[0])
+			if strings.HasPrefix(src, "time.Since(") || strings.HasPrefix(src, "time.Now(") || strings.HasPrefix(src, "float64(") {
+				if o := t.info.Defs[id]; o != nil {
+					t.statsLocals[o] = true
+				}
+				return true
+			}
+		}
+	case *ast.IfStmt:
+		if x.Init != nil {
+			return false
+		}
+		onlyStats := true
+		ast.Inspect(x.Cond, func(n ast.Node) bool {
+			if id, ok := n.(*ast.Ident); ok {
+				if o, isVar := t.info.ObjectOf(id).(*types.Var); isVar && !t.statsLocals[o] {
+					onlyStats = false
+				}
+			}
+			return true
+		})
+		if !onlyStats {
+			return false
+		}
+		for _, b := range x.Body.List {
+			if !t.isStatsStmt(b) {
+				return false
+			}
+		}
+		switch el := x.Else.(type) {
+		case nil:
+		case *ast.BlockStmt:
+			for _, b := range el.List {
+				if !t.isStatsStmt(b) {
+					return false
+				}
+			}
+		default:
+			return false
+		}
+		return true
+	}
+	return false
 }
 
 // outSentinel stands for the send log `out__` among loop-carried variables (nil stands for the effect log)
@@ -450,6 +554,9 @@ func (t *tr) expr(e ast.Expr) string {
 		if _, ok := o.(*types.Var); ok {
 			if o.Parent() == t.pkg.Scope() {
 				unsup("package-level variable %s", x.Name)
+			}
+			if t.statsLocals[o] {
+				unsup("statistics-only local %s is used by data code", x.Name)
 			}
 			return t.nameOf(o)
 		}
@@ -927,6 +1034,9 @@ func (t *tr) assigned(body *ast.BlockStmt) []types.Object {
 	fx := false
 	out := false
 	ast.Inspect(body, func(n ast.Node) bool {
+		if st, ok := n.(ast.Stmt); ok && t.isStatsStmt(st) {
+			return false // statistics are not loop-carried data
+		}
 		switch x := n.(type) {
 		case *ast.AssignStmt:
 			for _, l := range x.Lhs {
@@ -1043,6 +1153,9 @@ func (t *tr) stmts(list []ast.Stmt, k cont, ind string, inLoop bool) string {
 	s := list[0]
 	rest := func() string { return t.stmts(list[1:], k, ind, inLoop) }
 	restAt := func(ind2 string) string { return t.stmts(list[1:], k, ind2, inLoop) }
+	if t.isStatsStmt(s) {
+		return ind + "-- (statistics)\n" + rest()
+	}
 	switch x := s.(type) {
 	case *ast.EmptyStmt:
 		return rest()
@@ -1787,7 +1900,8 @@ func translatePackage(repo string, sp trSpec, outDir string) (nfn int, notes []s
 		notes = append(notes, "type check: "+err.Error())
 	}
 	t := &tr{spec: sp, fset: fset, info: info, pkg: pkg, funcs: map[string]*ast.FuncDecl{}, mutates: map[string]bool{}, effects: map[string]bool{}, locks: map[string]bool{}, objFn: map[types.Object]string{},
-		closures: map[string]*ast.FuncLit{}, sends: map[string]bool{}, skipped: map[string]bool{}, outs: map[string]types.Type{}, evClauses: map[string]*ast.CommClause{}}
+		closures: map[string]*ast.FuncLit{}, sends: map[string]bool{}, skipped: map[string]bool{}, outs: map[string]types.Type{}, evClauses: map[string]*ast.CommClause{},
+		statsLocals: map[types.Object]bool{}}
 	var b strings.Builder
 	b.WriteString("import Relay.Base.GoLite\n")
 	for _, im := range sp.extraImps {
@@ -1819,6 +1933,66 @@ func translatePackage(repo string, sp trSpec, outDir string) (nfn int, notes []s
 				}
 			}
 		}
+	}
+	// a structure is emitted after the structures its fields mention (source order otherwise)
+	{
+		byName := map[string]int{}
+		for i, sd := range sds {
+			byName[sd.name] = i
+		}
+		var mentions func(ty types.Type, out map[string]bool, depth int)
+		mentions = func(ty types.Type, out map[string]bool, depth int) {
+			if depth > 6 {
+				return
+			}
+			switch u := ty.(type) {
+			case *types.Named:
+				if u.Obj().Pkg() == pkg {
+					if _, ok := u.Underlying().(*types.Struct); ok {
+						out[u.Obj().Name()] = true
+						return
+					}
+				}
+				mentions(u.Underlying(), out, depth+1)
+			case *types.Pointer:
+				mentions(u.Elem(), out, depth+1)
+			case *types.Slice:
+				mentions(u.Elem(), out, depth+1)
+			case *types.Map:
+				mentions(u.Key(), out, depth+1)
+				mentions(u.Elem(), out, depth+1)
+			}
+		}
+		done := map[string]bool{}
+		ordered := []sdecl{}
+		var visit func(i int, depth int)
+		visit = func(i int, depth int) {
+			sd := sds[i]
+			if done[sd.name] || depth > 20 {
+				return
+			}
+			done[sd.name] = true
+			if sp.onlyTypes == nil || sp.onlyTypes[sd.name] {
+				for k := 0; k < sd.st.NumFields(); k++ {
+					f := sd.st.Field(k)
+					if _, sk := sp.skipFields[sd.name+"."+f.Name()]; sk {
+						continue
+					}
+					m := map[string]bool{}
+					mentions(f.Type(), m, 0)
+					for n := range m {
+						if j, ok := byName[n]; ok && n != sd.name && (sp.onlyTypes == nil || sp.onlyTypes[n]) {
+							visit(j, depth+1)
+						}
+					}
+				}
+			}
+			ordered = append(ordered, sd)
+		}
+		for i := range sds {
+			visit(i, 0)
+		}
+		sds = ordered
 	}
 	untranslated := [][2]string{}
 	for _, sd := range sds {
@@ -1982,6 +2156,9 @@ func translatePackage(repo string, sp trSpec, outDir string) (nfn int, notes []s
 			return true
 		})
 		ast.Inspect(t.bodyNode(q), func(n ast.Node) bool {
+			if st, ok := n.(ast.Stmt); ok && t.isStatsStmt(st) {
+				return false
+			}
 			switch x := n.(type) {
 			case *ast.AssignStmt:
 				for _, l := range x.Lhs {
@@ -2138,6 +2315,11 @@ func eventClauses(fd *ast.FuncDecl) ([]evClause, string) {
 		if !ok || ue.Op != token.ARROW {
 			return nil, "event loop: a case that is not a receive"
 		}
+		if _, isIdent := ue.X.(*ast.Ident); isIdent && len(cc.Body) == 1 {
+			if rs, isRet := cc.Body[0].(*ast.ReturnStmt); isRet && len(rs.Results) == 0 {
+				continue // `case <-closed: return`: the loop ends, nothing else happens
+			}
+		}
 		se, ok := ue.X.(*ast.SelectorExpr)
 		if !ok {
 			return nil, "event loop: receive from something other than a field of the receiver"
@@ -2172,6 +2354,7 @@ func (t *tr) function(q string, fd *ast.FuncDecl, failed map[string]bool) (code 
 	t.hasFx = false
 	t.nonNil = map[string]int{}
 	t.present = map[string]int{}
+	t.statsLocals = map[types.Object]bool{}
 	t.holding = false
 	t.recvObj = nil
 	sig := t.info.Defs[fd.Name].Type().(*types.Signature)
